@@ -88,7 +88,7 @@ func fixedData(n int, salt int) []byte {
 
 func TestRoundTrip(t *testing.T) {
 	pbt.Run(t, pbt.Sub[RT]{
-		Name: "roundtrip", Quick: 60000, Thorough: 1500000,
+		Name: "roundtrip", Quick: 120000, Thorough: 6000000,
 		EnumDesc: "all 255x255 (version, network) pairs x {bitcoin-script, bitcoin-template} x payload lengths {0,1,20} (quick) / {0,1,2,20,75,76,255,1000} (thorough)",
 		Enum: func(tier string, yield func(RT)) {
 			lens := []int{0, 1, 20}
@@ -205,7 +205,7 @@ func genText(t *rapid.T) Text {
 
 func TestCorruption(t *testing.T) {
 	pbt.Run(t, pbt.Sub[Text]{
-		Name: "corruption", Quick: 200000, Thorough: 5000000,
+		Name: "corruption", Quick: 400000, Thorough: 20000000,
 		Gen:   genText,
 		Check: checkText,
 		EnumDesc: "every single-character substitution (31-symbol alphabet incl. ':' and non-hex) at every position of 6 (quick) / 40 (thorough) valid encodings",
